@@ -49,6 +49,21 @@ CHECKS = {
         note='Trusted: z3 (linear real arithmetic), the symnp facade (validated by witness replay on real numpy/numba), '
              'numba jit = identity on the same source; reals stand for floats (no nan).',
         design='4/C05'),
+    'C16': dict(
+        text='Bounded symbolic execution of the real confidence code (get_line_confidence incl. the transformer branch, '
+             'get_letter_confidence, PageParser.compute_line_confidence / get_prob, line_confident_enough, '
+             'BagOfHypotheses.total_scores/posteriors/confidence/transcript_confidence, TextLine.get_dense_logits / '
+             'get_full_logprobs) in the LogP domain: a logit is its weight w > 0, log-softmax is the quotient w/sum(w) '
+             '(a fresh variable with the linear facts q > 0, sum q = 1, order of numerators; the nonlinear definition is a '
+             'lazy axiom only used when a claim does not follow without it), adding a constant to a frame is w -> lambda*w. '
+             'z3 decides on every path: every confidence in [0,1]; posteriors positive and summing to 1; bag confidence = '
+             'posterior of an arg-max total; invariance under per-frame shifts (the scaled run yields syntactically the same '
+             'quotients); one-hot posteriors give 1; the confident-line test is monotone in its threshold.  Bound: F <= 3 '
+             'frames x 3 symbols, labels <= 2, bags <= 3 (quick); F <= 4, labels <= 3, bags <= 4, all prune patterns for F <= 3 (thorough).',
+        note='Trusted: z3; the symnp/LogP facade (witness replay on the real numpy/scipy code); exact reals for floats; exp of '
+             'LM-weighted totals is an uninterpreted positive increasing function; alignment positions are arbitrary strictly '
+             'increasing frames (what align_text returns is C05), plus one end-to-end run with the real align_text at F = 2.',
+        design='4/C16'),
 }
 
 NOT_APPLICABLE = {
